@@ -8,6 +8,28 @@ use std::io::Write;
 use std::sync::Mutex;
 
 static BUF: Mutex<Vec<String>> = Mutex::new(Vec::new());
+static BASE: Mutex<Option<std::time::Instant>> = Mutex::new(None);
+
+/// Set the time origin of the current scenario.
+pub fn set_base(t: std::time::Instant) {
+    *BASE.lock().unwrap_or_else(|e| e.into_inner()) = Some(t);
+}
+
+/// Microseconds since the origin of the current scenario.
+pub fn us() -> i64 {
+    let b = BASE.lock().unwrap_or_else(|e| e.into_inner());
+    match *b {
+        Some(b) => {
+            let n = std::time::Instant::now();
+            if n >= b {
+                (n - b).as_micros() as i64
+            } else {
+                -((b - n).as_micros() as i64)
+            }
+        }
+        None => 0,
+    }
+}
 
 /// Append one event.  `fields` must be a JSON object; `"e"` is set to `name`.
 pub fn ev(name: &str, fields: Value) {
